@@ -184,6 +184,14 @@ pub fn stress_inputs(big: usize) -> Vec<(String, String)> {
     v.push(("many-lines".to_string(), "b1 and\n".repeat(n) + "b2 ==="));
     v.push(("crlf-lines".to_string(), "b1 and\r\n".repeat(n.min(2000)) + "i == true"));
     v.push(("value-deep-call".to_string(), "idb(".repeat(n) + "s" + &")".repeat(n)));
+    // nesting INSIDE a pattern literal never meets the parser's own nesting limit: the regex engine's limits must bound it
+    v.push(("regex-deep-groups".to_string(), format!("s matches \"{}a{}\"", "(".repeat(n), ")".repeat(n))));
+    v.push(("regex-deep-groups-raw".to_string(), format!("s matches r#\"{}a{}\"#", "(?:".repeat(n), ")".repeat(n))));
+    v.push(("regex-deep-groups-2000".to_string(), format!("s matches \"{}a{}\"", "(".repeat(2000), ")".repeat(2000))));
+    v.push(("regex-deep-classes".to_string(), format!("s matches \"{}a{}\"", "[a&&[".repeat(n.min(5000)), "]]".repeat(n.min(5000)))));
+    v.push(("regex-deep-repeats".to_string(), format!("s matches \"a{}\"", "{2}".repeat(n.min(20000)))));
+    v.push(("regex-long-alternation".to_string(), format!("s matches \"{}\"", vec!["ab"; n].join("|"))));
+    v.push(("wildcard-many-stars".to_string(), format!("s wildcard \"{}\"", "*a".repeat(n))));
     v
 }
 
